@@ -18,6 +18,7 @@ mod domrec;
 mod domreplay;
 mod domtext;
 mod ns;
+mod parsehist;
 mod util;
 mod world;
 mod xp;
@@ -48,6 +49,7 @@ fn main() {
         s if s.starts_with("xp-") => xp::main(s, rest),
         s if s.starts_with("cli-") => cli::main(s, rest),
         s if s.starts_with("ns-") => ns::main(s, rest),
+        s if s.starts_with("ps-") => parsehist::main(s, rest),
         other => {
             eprintln!("unknown subcommand {}", other);
             2
